@@ -67,6 +67,20 @@ def gen(tier, rng):
         for code in CODES + ["custom_code", ""]:
             for d, u in ((code, None), (code, code), (None, code), (code.upper(), None), (code + " ", None), (": " + code, "(see " + code + ")"), ("x", "x")):
                 out.append(("C14 %s %s %s %s" % (fam, C.tb(code), C.topt(d), C.topt(u)), "description-repeats-code"))
+        # literals that are new in the source (gen/srclit.py): each new word as a code (with all variants), as description and
+        # as URI; each new integer as the length of code / description / URI
+        from gen import srclit as SL
+        for w in SL.words():
+            for v in variants(w, rng):
+                for d, u in ((None, None), ("desc", "https://e/x"), (w, w), (v, None)):
+                    out.append(("C14 %s %s %s %s" % (fam, C.tb(v), C.topt(d), C.topt(u)), "source-literal/code"))
+            for code in CODES[:3] + ["custom_code"]:
+                for d, u in ((w, None), (None, w), (w + " ", " " + w), (w.upper(), w.lower())):
+                    out.append(("C14 %s %s %s %s" % (fam, C.tb(code), C.topt(d), C.topt(u)), "source-literal/text"))
+        for k in SL.sizes(limit=300000, lo=0):
+            for code in ("invalid_grant", "c" * k):
+                for d, u in ((None, None), ("d" * k, None), (None, "u" * k), ("\u00e9" * (k // 2), "https://e/" + "x" * k)):
+                    out.append(("C14 %s %s %s %s" % (fam, C.tb(code), C.topt(d), C.topt(u)), "source-literal/length"))
         n = 300 if tier == "quick" else 20000
         alphabet = "abcdefghijklmnopqrstuvwxyz_ABCDEFG -é日"
         for _ in range(n):
@@ -111,6 +125,13 @@ def gen_json(tier, rng):
                     m = [("error", code)] + ([("error_description", d)] if d is not None or i % 2 else []) + ([("error_uri", u)] if u is not None or i % 3 == 0 else [])
                     body = D.render(D.obj(D.shuffled(m + D.unknown_members(rng, D.ERROR_KNOWN), rng)), rng)
                     out.append((c05.http_line("sync" if i % 2 else "async", kind, False, [400, 401, 403, 500, 503][i % 5], [None, b"application/json", b"text/plain"][i % 3], body), "http/" + kind))
+    from gen import srclit as SL
+    for st in SL.statuses():
+        for code in CODES + ["custom_code"]:
+            for kind in kinds:
+                i += 1
+                body = D.render(D.obj([("error", code), ("error_description", "d")]), rng, plain=True)
+                out.append((c05.http_line("sync" if i % 2 else "async", kind, False, st, [None, b"application/json", b"text/plain"][i % 3], body), "source-literal/status/" + kind))
     return out
 
 
